@@ -240,7 +240,8 @@ type hreg struct {
 }
 
 type obsRec struct {
-	obj            int
+	obj            int // memo segment
+	target         *Target
 	st             []int
 	dg             []string
 	sel            []int
@@ -262,6 +263,8 @@ type history struct {
 	obs    []obsRec
 	snaps  []ev.M
 	nLint  int
+	// statusOnly: details digests are blanked when writing (properties that speak about status alone)
+	statusOnly bool
 }
 
 func newHistory(objs []*Target) *history {
@@ -297,7 +300,11 @@ func (h *history) setCfg(r int, id string) {
 }
 
 func (h *history) lint(oi, ri int, tag string, snap bool) {
-	t := h.objs[oi]
+	h.lintTarget(oi, h.objs[oi], ri, tag, snap)
+}
+
+// lintTarget lints t (which may be a variant of the segment's base object) and files the observation under memo segment oi.
+func (h *history) lintTarget(oi int, t *Target, ri int, tag string, snap bool) {
 	hr := h.regs[ri]
 	ls := h.byKind[t.Kind]
 	var before string
@@ -306,7 +313,7 @@ func (h *history) lint(oi, ri int, tag string, snap bool) {
 	}
 	rs, esc, hung := runSet(t, hr.reg)
 	h.nLint++
-	o := obsRec{obj: oi, st: make([]int, len(ls)), dg: make([]string, len(ls)), sel: []int{}, flags: []bool{false, false, false, false},
+	o := obsRec{obj: oi, target: t, st: make([]int, len(ls)), dg: make([]string, len(ls)), sel: []int{}, flags: []bool{false, false, false, false},
 		cfgIdx: []int{}, cfgSec: []string{}, cfgCls: []string{}, escaped: esc != "" || hung, panicMsg: esc,
 		tag: fmt.Sprintf("%s|reg=%s#%d|cfg=%s", tag, hr.class, ri, hr.cfg)}
 	for i := range o.st {
@@ -372,7 +379,12 @@ func (h *history) write(path string) int {
 			o := h.obs[i]
 			f := Facts{Ekus: []int{}, Pols: []string{}}
 			if t.Kind == "cert" {
-				f = certFacts(t.Cert)
+				f = certFacts(o.target.Cert)
+			}
+			if h.statusOnly {
+				for k := range o.dg {
+					o.dg[k] = ""
+				}
 			}
 			w.Emit(ev.M{"ev": "Lint", "obj": t.ID, "kind": t.Kind, "ekus": f.Ekus, "unk": f.Unk, "pols": f.Pols, "email": f.Email, "st": o.st, "dg": o.dg, "sel": o.sel, "flags": o.flags,
 				"cfgIdx": o.cfgIdx, "cfgSec": o.cfgSec, "cfgCls": o.cfgCls, "escaped": o.escaped, "tag": o.tag, "panicMsg": o.panicMsg})
